@@ -1,6 +1,7 @@
-\* S->C, complete registration histories: one TLC state per history (VIEW histvars); Emit writes every
-\* history of length MaxHist as one "@H@{cfg, hist}" line.  Reference instance: checks/c17.py generates
-\* the same file per dispatcher kind / arity / number of extras / bound into .work/C17/cfg/ (gen_cfg).
+\* S->C, complete histories: one TLC state per history (VIEW histvars); Emit writes every history of
+\* length MaxHist as one "@H@{cfg, hist}" line.  Reference instance: checks/c17.py generates the same
+\* file per dispatcher kind / arity / number of extras / bound into .work/C17/cfg/ (gen_cfg); the
+\* operation classes with "clone" add the copy / move / swap / destroy calls on a second object.
 SPECIFICATION Spec
 CONSTANTS
   Kinds <- KFastStatic
@@ -11,6 +12,7 @@ CONSTANTS
   MaxCells = 999
   OpClasses <- OpsHistIns
   EmitMode <- ModeHist
+  Plans <- NoPlans
 CONSTRAINT Bound
 ACTION_CONSTRAINT Emit
 VIEW histvars
